@@ -10,6 +10,8 @@ import Tranp.Driver.Block
 import Tranp.Driver.Session
 import Tranp.Driver.Entry
 import Tranp.Driver.Span
+import Tranp.Driver.Errors
+import Tranp.Driver.CacheFS
 
 open Tranp.Driver
 
@@ -26,4 +28,6 @@ def main (args : List String) : IO UInt32 := do
   | ["session"] => Session.run; return 0
   | ["entry"] => Entry.run; return 0
   | ["span"] => Span.run; return 0
+  | ["errors"] => Errors.run; return 0
+  | ["cachefs"] => CacheFS.run; return 0
   | _ => IO.eprintln s!"unknown driver family: {args}"; return 2
